@@ -12,7 +12,7 @@ func init() {
 	core.Register(&core.Monitor{
 		ID:            "C12",
 		Race:          true,
-		Rule:          "per target (17 protocol/mode targets) 24 (quick) / 2000 (thorough) conforming conversations: a PRNG walk of 5..300 messages over the implementation's state map, run between two real engines (client role and server role, muxer to muxer over netsim, wire tap on both directions); one sending goroutine per endpoint; the pipelining side (client; server for tx-submission2 / message-submission; none for handshake) enqueues up to depth in {1,2,3,5,10,30,100} requests ahead of the replies, the other side sends when everything before a message was received, from its own goroutine or straight from its handler; three of four conversations with PRNG-chosen yields / sleeps at the protocol's verif points (send.afterDequeue, send.beforeSegment, read.beforeQueue, recv.beforeHandle). Plus per (target, role) 12 / 300 rejection cases: legal prefix of 0..6 steps, then the local side, holding agency, enqueues a message its state does not permit (0..2 more behind it). A case is non-trivial when it ran to completion (all messages transitioned on both engines / the engine stopped); distinct by (target, conversation or script, depth, modes)",
+		Rule:          "per target (17 protocol/mode targets) 24 (quick) / 2000 (thorough) conforming conversations: a PRNG walk of 5..300 messages over the implementation's state map, run between two real engines (client role and server role, muxer to muxer over netsim, wire tap on both directions); one sending goroutine per endpoint; the pipelining side (client; server for tx-submission2 / message-submission; none for handshake) enqueues up to depth in {1,2,3,5,10,30,100} requests ahead of the replies, the other side sends when everything before a message was received, from its own goroutine or straight from its handler; three of four conversations with PRNG-chosen yields / sleeps at the protocol's verif points (send.afterDequeue, send.beforeSegment, read.beforeQueue, recv.beforeHandle). Plus per (target, role) 12 / 300 rejection cases: legal prefix of 0..6 steps, then the local side, holding agency, enqueues a message its state does not permit (0..2 more behind it). Before those, 36 / 600 histories run one after the other under GOMAXPROCS 1, 2, 4 (state shared between Protocol instances, per-P caches): 6..13 short-lived engines of random targets are stopped with a transition in flight - parked at their trans event (state loop has the request, requester still waiting) or at a verif point of the send / receive path, Stop(), requester gone, released - and then, on the same goroutine, fresh engines of the same and of another protocol must refuse a not permitted FIRST message without handing anything to the muxer / wire (4 engines) and carry one pipelined conforming conversation. A case is non-trivial when it ran to completion (all messages transitioned on both engines / the engine stopped); distinct by (target, conversation or script, depth, modes)",
 		MinNontrivial: 500,
 		RaceAnchors:   []string{"protocol.(*Protocol).sendLoop", "protocol.(*Protocol).stateLoop", "protocol.(*Protocol).enqueueMessage", "protocol.(*Protocol).transitionState", "protocol.(*Protocol).getCurrentState"},
 		Assumptions: []string{
